@@ -192,6 +192,8 @@ struct Gen {
   al: u64,
   /// the configuration of the running case (file profiles: parameters of `reopen`)
   cfg: Option<Cfg>,
+  /// `reserved=` of the next reopen lines when it is to differ from the file's (bad-file histories)
+  res_ov: Option<u32>,
 }
 
 impl Gen {
@@ -329,6 +331,10 @@ impl Gen {
       // capacities around page multiples, up to 3 pages + 1
       let ps = page_size() as u32;
       cfg.cap = r.pick(&[ps - 1, ps, ps + 1, 2 * ps - 1, 2 * ps, 2 * ps + 1, 3 * ps - 1, 3 * ps, 3 * ps + 1]);
+      // now and then more than sixteen pages (chunked checksummers work in runs of pages)
+      if r.chance(6) {
+        cfg.cap = 17 * ps + r.pick(&[1u32, 700, ps - 1, ps + 5]);
+      }
       // reserved prefixes around and beyond a page
       if r.chance(30) {
         cfg.reserved = r.pick(&[ps - 1, ps, ps + 3, ps + 904, 2 * ps, 2 * ps + 1]);
@@ -537,6 +543,10 @@ impl Gen {
       (1 << 63) - 1,
       1 << 32,
       (1 << 32) - 1,
+      // beyond 32 bits, with a low half that is a valid offset
+      (1 << 32) + d,
+      (1 << 32) + al.saturating_sub(w),
+      (7 << 32) + 1,
     ];
     self.rng.pick(&c)
   }
@@ -960,12 +970,12 @@ impl Gen {
     let ps = ai.page_size as u64;
     if ai.capacity as u64 >= ps - 1 {
       // fill up to around a page multiple (+-1) in chunks with different bytes
-      let k = self.rng.range(1, 3);
+      let k = if ai.capacity as u64 > 16 * ps { 17 } else { self.rng.range(1, 3) };
       let target = (k * ps + self.rng.range(0, 2)).saturating_sub(1).min(ai.capacity as u64);
       let mut guard = 0;
       while (self.ai().allocated as u64) < target && guard < 12 {
         let want = target - self.ai().allocated as u64;
-        let n = want.min(self.rng.range(ps / 2, 2 * ps));
+        let n = want.min(if k > 3 { self.rng.range(ps, 3 * ps) } else { self.rng.range(ps / 2, 2 * ps) });
         if self.rng.chance(25) {
           // left as the arena hands it out: whole pages of zeros inside the allocated memory
           let h = self.fresh_h();
@@ -1118,7 +1128,24 @@ impl Gen {
       self.run_mix(n, false);
     }
     let rest = self.left;
-    self.run_mix(rest, false);
+    self.run_mix(rest.saturating_sub(6), false);
+    // the cursor arithmetic of `rewind` after the capacity changed (nothing is live any more; the list is dropped)
+    if self.case.is_some() && self.rng.chance(50) {
+      self.left = self.left.max(6);
+      self.release_all(true, |_| false);
+      self.emit("discard_freelist".to_string());
+      for _ in 0..self.rng.range(1, 3) {
+        let cap = self.ai().capacity as u64;
+        let line = match self.rng.below(4) {
+          0 => "rewind cur 0".to_string(),
+          1 => format!("rewind end {}", self.rng.pick(&[0u64, 1, 8, cap / 2])),
+          2 => format!("rewind start {}", self.rng.pick(&[cap, cap + 1, cap.saturating_sub(1), 4294967295])),
+          _ => format!("rewind cur {}", self.rng.pick(&[1i64, 8, -1, -8])),
+        };
+        self.emit(line);
+        self.emit("slices".to_string());
+      }
+    }
   }
 
   fn profile_buf(&mut self) {
@@ -1213,16 +1240,24 @@ impl Gen {
     let trunc = if (mode == "ro" || mode == "copy_ro") && self.rng.chance(30) { " trunc=1" } else { "" };
     // every mode has a second entry point taking a path builder
     let pb = if self.rng.chance(35) { " pb=1" } else { "" };
+    // a copy-on-write open needs no write access to the file
+    // (only without a capacity: growing the file would need write access)
+
     // sometimes with the exclusive-creation flag as well (it wins: an existing file must be refused and left
     // alone), rarely with that flag alone
+    // the minimum segment size in force is the one stored in the file, whatever the caller's Options say
+    let minseg_tok = if self.rng.chance(20) { self.rng.pick(&[0u32, 1, 8, 48, c.minseg + 1]) } else { c.minseg };
     let create_tok: u8 = if create && self.rng.chance(12) { 3 } else if !create && self.rng.chance(4) { 2 } else { create as u8 };
+    // a copy-on-write open needs no write access to the file (only without creation flags and without a capacity:
+    // creating or growing the file would need it)
+    let nw = if mode == "copy" && create_tok == 0 && cap == "none" && self.rng.chance(60) { " nw=1" } else { "" };
     self.emit(format!(
-      "reopen {mode} cap={cap} magic={} freelist={} create={} flavour={flavour} reserved={} minseg={}{trunc}{pb}",
+      "reopen {mode} cap={cap} magic={} freelist={} create={} flavour={flavour} reserved={} minseg={}{trunc}{pb}{nw}",
       magic.unwrap_or(c.magic),
       FREELISTS[freelist.unwrap_or(c.freelist) as usize],
       create_tok,
-      c.reserved,
-      c.minseg
+      self.res_ov.unwrap_or(c.reserved),
+      minseg_tok
     ))
   }
 
@@ -1469,7 +1504,14 @@ impl Gen {
     ];
     self.close_all();
     let (mut magic, mut freelist) = (None, None);
-    match self.rng.weighted(&[34, 22, 10, 12, 12, 10]) {
+    match self.rng.weighted(&[34, 22, 10, 12, 12, 10, 10]) {
+      6 => {
+        // the caller forgets (or invents) a reserved prefix: the identification is looked for in the wrong place; the
+        // open must be refused and must not have written anything before that
+        let r = c.reserved;
+        let other = self.rng.pick(&[0u32, 8, 16, r + 8, r.saturating_sub(8), r + 1]);
+        self.res_ov = Some(if other == r { r + 8 } else { other });
+      }
       0 => {
         let k = self.rng.range(1, 7);
         let rnd = self.rng.below(256);
@@ -1516,6 +1558,7 @@ impl Gen {
         self.emit("close".to_string());
       }
     }
+    self.res_ov = None;
   }
 
   fn one_case(&mut self) {
@@ -1615,6 +1658,7 @@ fn gen(args: &[String]) {
     left: 0,
     al: 0,
     cfg: None,
+    res_ov: None,
   };
   for _ in 0..cases {
     g.one_case();
